@@ -622,3 +622,23 @@ Proof.
   - rewrite isequal_arrL_logical by assumption. apply isequal_arr_spec; auto using logical_length.
   - rewrite isclose_arrL_logical by assumption. apply isclose_arr_spec; auto using logical_length.
 Qed.
+
+(* ---------- integer comparisons in one machine type ---------- *)
+Lemma swrap_small w z : 0 < w -> - 2 ^ (w - 1) <= z < 2 ^ (w - 1) -> swrap w z = z.
+Proof.
+  intros Hw Hz. unfold swrap.
+  assert (E : 2 ^ w = 2 * 2 ^ (w - 1)) by (replace w with (Z.succ (w - 1)) at 1 by lia; apply Z.pow_succ_r; lia).
+  assert (P : 0 < 2 ^ (w - 1)) by (apply Z.pow_pos_nonneg; lia).
+  destruct (Z_lt_le_dec z 0) as [Hn|Hn].
+  - replace (z mod 2 ^ w) with (z + 2 ^ w).
+    + replace (z + 2 ^ w <? 2 ^ (w - 1)) with false by lia. lia.
+    + rewrite <- (Z_mod_plus_full z 1 (2 ^ w)). rewrite Z.mod_small; lia.
+  - rewrite Z.mod_small by lia. replace (z <? 2 ^ (w - 1)) with true by lia. reflexivity.
+Qed.
+(* a comparison in a type in which both values are representable is the comparison of the values *)
+Lemma eq_in_type_exact s w a b : 0 < w -> in_range s w a -> in_range s w b -> eq_in_type s w a b = (a =? b).
+Proof.
+  intros Hw Ha Hb. unfold eq_in_type, in_range in *. destruct s.
+  - now rewrite !swrap_small.
+  - now rewrite !wrap_small.
+Qed.
